@@ -222,6 +222,7 @@ def note_tags(beh):
 
 # ------------------------------------------------------------------------------------------------------ C18 argv
 import shlex  # noqa: E402
+import zlib  # noqa: E402
 import shutil  # noqa: E402
 import stat  # noqa: E402
 import tempfile  # noqa: E402
@@ -313,8 +314,8 @@ class ArgvEnv:
             rc = "timeout"
         if not os.path.exists(self.argv_log):
             return rc, None
-        data = open(self.argv_log).read().split("\0\n")
-        calls = [c.split("\n")[:-1] if c.endswith("\n") else c.split("\n") for c in data if c != ""]
+        data = open(self.argv_log).read().split("\0\n")[:-1]      # one piece per call, "" = no arguments
+        calls = [c.split("\n")[:-1] for c in data]
         return rc, calls
 
     def cleanup(self):
@@ -396,7 +397,7 @@ def execute_argv(args):
                         recon[:pos] == typed[:pos]:
                     cmd_idx = pos
                 obs = {"same": same, "cmdIdx": cmd_idx, "gitSame": True, "e2eSame": True, "e2eDropLead": False}
-                e2e = cfg.get("e2e_every") and (hash(run_id) + salt) % cfg["e2e_every"] == 0
+                e2e = cfg.get("e2e_every") and (zlib.crc32(run_id.encode()) + salt) % cfg["e2e_every"] == 0
                 if not same or e2e:
                     env = ArgvEnv(scratch)
                 if not same:
@@ -411,7 +412,7 @@ def execute_argv(args):
                 if e2e:
                     rc, calls = env.wrapped(gitai, typed)
                     obs["e2eSame"] = calls is not None and len(calls) >= 1 and calls[-1] == recon
-                    if calls and typed[:1] == ["--"]:
+                    if calls is not None and len(calls) >= 1 and typed[:1] == ["--"]:
                         # what the scanner makes of the vector without its leading "--"
                         r2 = call([{"id": 2, "op": "argv", "args": typed[1:]}])[0]
                         obs["e2eDropLead"] = calls[-1] == r2.get("recon")
